@@ -3,22 +3,22 @@
 # Confirms a seeded change (compiles, suite passes, demo fails with / passes without) in a scratch worktree of /repo,
 # then runs the given /verif checks (default: the property's) against the changed tree.  Nothing is written to /repo.
 set -u
-PROP=$1; D=$(readlink -f $2); shift 2; CHECKS=${@:-$PROP}
-W=/tmp/mutchk; export CARGO_TARGET_DIR=/tmp/mutchk-target
+VROOT=$(cd "$(dirname "$0")/.." && pwd); PROP=$1; D=$(readlink -f $2); shift 2; CHECKS=${@:-$PROP}
+W=${SEED_W:-/tmp/mutchk}; export CARGO_TARGET_DIR=${W}-target
 if [ ! -d $W ]; then git -C /repo worktree add -q --detach $W HEAD || exit 3; fi
 cd $W && git checkout -q --detach $(git -C /repo rev-parse HEAD) && git checkout -q -- . && git clean -qfd
 CRATE=$(grep -oE "(detector|physics|analysis)/tests" $D/notes.md | head -1 | cut -d/ -f1); CRATE=${CRATE:-detector}
 DEMOS=$(ls $D/*.rs 2>/dev/null)
 echo "== seed $D  property=$PROP crate=$CRATE demos=$(echo $DEMOS | xargs -n1 basename 2>/dev/null | tr '\n' ' ')"
 mkdir -p $W/$CRATE/tests
-run_demo() { local ok=0; for f in $DEMOS; do cp $f $W/$CRATE/tests/; n=$(basename $f .rs); (cd $W && cargo test -q --offline -p $(grep -m1 '^name' $W/$CRATE/Cargo.toml | cut -d'"' -f2) --test $n >/tmp/mutchk-demo.log 2>&1) || ok=1; rm -f $W/$CRATE/tests/$(basename $f); done; return $ok; }
-if [ -z "${SKIP_CONFIRM:-}" ] && [ -n "$DEMOS" ]; then run_demo && echo "demo without change: PASS (expected)" || { echo "demo without change: FAIL (unexpected)"; tail -5 /tmp/mutchk-demo.log; }; fi
+run_demo() { local ok=0; for f in $DEMOS; do cp $f $W/$CRATE/tests/; n=$(basename $f .rs); (cd $W && cargo test -q --offline -p $(grep -m1 '^name' $W/$CRATE/Cargo.toml | cut -d'"' -f2) --test $n >${W}-demo.log 2>&1) || ok=1; rm -f $W/$CRATE/tests/$(basename $f); done; return $ok; }
+if [ -z "${SKIP_CONFIRM:-}" ] && [ -n "$DEMOS" ]; then run_demo && echo "demo without change: PASS (expected)" || { echo "demo without change: FAIL (unexpected)"; tail -5 ${W}-demo.log; }; fi
 git apply $D/patch.diff || { echo "patch does not apply"; exit 3; }
 if [ -z "${SKIP_CONFIRM:-}" ]; then
-(cargo test -q --workspace --offline >/tmp/mutchk-suite.log 2>&1) && echo "suite with change: PASS (expected)" || { echo "suite with change: FAIL (unexpected)"; grep -E "FAILED|panicked|error" /tmp/mutchk-suite.log | head -5; }
+(cargo test -q --workspace --offline >${W}-suite.log 2>&1) && echo "suite with change: PASS (expected)" || { echo "suite with change: FAIL (unexpected)"; grep -E "FAILED|panicked|error" ${W}-suite.log | head -5; }
 if [ -n "$DEMOS" ]; then run_demo && echo "demo with change: PASS (unexpected)" || echo "demo with change: FAIL (expected)"; fi
 fi
-cd /verif
+cd $VROOT
 for c in $CHECKS; do
   echo "-- ./check $c on the changed tree"
   VERIF_REPO=$W timeout 3000 ./check $c ${SEED_TIER:+--tier $SEED_TIER} 2>&1 | grep -E "VIOLATION|UNDECIDED|KNOWN|ok \(|fails" | cut -c1-300
